@@ -330,6 +330,8 @@ func (root *Root) ParseReader(r io.Reader) error {
 	// revert to the original version.
 	origTypes := root.types
 	origDirs := root.dirs
+	origSchema := root.schema
+	origImplicit := root.implicitSchema
 	root.types = origTypes.dup()
 	root.dirs = origDirs.dup()
 
@@ -347,6 +349,10 @@ func (root *Root) ParseReader(r io.Reader) error {
 	if err != nil {
 		root.types = origTypes
 		root.dirs = origDirs
+		// A schema block in the failed SDL replaced the schema while it was
+		// being read.
+		root.schema = origSchema
+		root.implicitSchema = origImplicit
 	}
 	return err
 }
